@@ -3,12 +3,14 @@
 # in a scratch worktree (never touches /repo's working tree). Prints one line per change.
 export GOFLAGS=-mod=mod GOPROXY=off GOSUMDB=off GOTOOLCHAIN=local
 W=/tmp/regress-seeded
+H=/tmp/regress-harness; rm -rf $H; cp -r /verif/harness $H   # snapshot: the harness may be edited while this runs
+export VERIF_HARNESS=$H VERIF_EVIDENCE_DIR=/tmp/regress-evidence
 git -C /repo worktree remove --force $W 2>/dev/null; git -C /repo worktree prune
 git -C /repo worktree add -q --detach $W HEAD || exit 2
 pass=0; fail=0
 for d in /verif/seeded/${1:-*}/; do
   n=$(basename $d); [ -f $d/patch.diff ] || continue
-  prop=$(python3 -c "import json;print(json.load(open('$d/meta.json'))['breaks_property'])")
+  prop=$(python3 -c "import json;m=json.load(open('$d/meta.json'));print(m.get('check_with') or m['breaks_property'])")
   (cd $W && git checkout -q -- . && git apply $d/patch.diff) || { echo "$n: PATCH-DOES-NOT-APPLY"; continue; }
   out=$(cd /verif && VERIF_REPO=$W VERIF_SEED=${VERIF_SEED:-555} bin/check $prop quick 2>&1)
   rc=$?
@@ -16,5 +18,5 @@ for d in /verif/seeded/${1:-*}/; do
   if [ $rc = 1 ] && [ $nv -gt 0 ]; then pass=$((pass+1)); echo "$n: CAUGHT ($nv) $(echo "$out" | grep -m1 '^  class' | cut -c1-120)"; else fail=$((fail+1)); echo "$n: NOT-CAUGHT rc=$rc $(echo "$out" | tail -1 | cut -c1-160)"; fi
   rm -f /verif/replays/*/*-s${VERIF_SEED:-555}-*
 done
-(cd $W && git checkout -q -- .); git -C /repo worktree remove --force $W
+(cd $W && git checkout -q -- .); git -C /repo worktree remove --force $W; rm -rf $H /tmp/regress-evidence
 echo "REGRESSION caught=$pass not-caught=$fail"
